@@ -246,8 +246,11 @@ type reader struct {
 
 const maxDepth = 512
 
-func (r *reader) need(n int, kind string) *ParseError {
-	if r.p+n > len(r.b) || r.p+n < r.p {
+func (r *reader) need(n int, kind string) *ParseError { return r.need64(int64(n), kind) }
+
+// need64: element counts times element sizes are computed in 64 bits (int has 32 on some platforms).
+func (r *reader) need64(n int64, kind string) *ParseError {
+	if n < 0 || int64(r.p)+n > int64(len(r.b)) {
 		return &ParseError{Truncated, len(r.b), kind}
 	}
 	return nil
@@ -461,7 +464,7 @@ func (r *reader) payload(tag byte) (*Value, *ParseError) {
 		if n < 0 {
 			return nil, &ParseError{NegLen, off, "intarraylen"}
 		}
-		if e := r.need(int(n)*4, "intarray"); e != nil {
+		if e := r.need64(int64(n)*4, "intarray"); e != nil {
 			return nil, e
 		}
 		v.Ints = make([]int32, n)
@@ -481,7 +484,7 @@ func (r *reader) payload(tag byte) (*Value, *ParseError) {
 		if n < 0 {
 			return nil, &ParseError{NegLen, off, "longarraylen"}
 		}
-		if e := r.need(int(n)*8, "longarray"); e != nil {
+		if e := r.need64(int64(n)*8, "longarray"); e != nil {
 			return nil, e
 		}
 		v.Longs = make([]int64, n)
